@@ -82,7 +82,8 @@ Proof.
     destruct (Z.of_nat i <? 0) eqn:E0; [lia|].
     assert (Hbs : forallb (fun t => match t with Node b _ _ => list_eqb b (bs ++ tl) | Leaf _ => false end) others = true).
     { apply forallb_forall. intros o Ho. rewrite Forall_forall in Hc. specialize (Hc o Ho). inversion Hc; subst. apply list_eqb_refl. }
-    rewrite Hbs. cbn [negb]. change fixed_D22 with false. cbn [andb].
+    rewrite Hbs. cbn [negb]. change fixed_D22 with true. cbn [andb].
+    destruct (Z.of_nat (List.length (bs ++ tl)) <? Z.of_nat i) eqn:E00; [rewrite app_length in E00; lia|]. rewrite ?E0. cbn [orb].
     assert (Hents : forall l, (forall k c, In (k, c) l -> In (k, c) ents) -> exists ents',
       (fix go (l : list (string * tree)) : out (list (string * tree)) :=
          match l with
@@ -267,7 +268,7 @@ Proof.
   - inversion Hw as [|? ? ? Hnn0 Hnm HF]; subst. inversion Hu as [|? ? ? Hnd HFu]; subst.
     destruct (Z.of_nat i <? 0) eqn:E0; [lia|]. rewrite app_length.
     destruct (Z.of_nat (List.length bs + List.length tl) <=? Z.of_nat i) eqn:E1; [lia|].
-    change fixed_D22 with false. cbn [andb].
+    change fixed_D22 with true. cbn [andb]. rewrite ?E0.
     destruct (Z.of_nat i <? - Z.of_nat (List.length bs + List.length tl)) eqn:E2; [lia|].
     (* every other operand is a node of the same rank *)
     assert (Hnodes : forallb (fun t => match t with Node _ _ _ => true | Leaf _ => false end) others = true).
